@@ -210,6 +210,8 @@ class Sem:
             om = sum(1 << k for k, f in enumerate(fl) if s.flag_or(f))
             am = sum(1 << k for k, f in enumerate(fl) if s.flag_and(f))
             s.ctx.log.append(('F', 0, om | (am << 8)))
+        elif s.probe == 'flags_or':
+            s.ctx.log.append(('F', 0, sum(1 << k for k, f in enumerate(s.prog.flags) if s.flag_or(f))))
         elif s.probe == 'ids_root':
             m = s.prog.root
             for r, name in enumerate(s.c.m[m.name]['active']):
